@@ -274,12 +274,12 @@ def finish(ctx, level="model_checking", rule="", extra_cov=None):
     for v in raw:
         hit = None
         for f in findings:
-            if v["sig"] == f["signature"] or (f.get("signature_prefix") and v["sig"].startswith(f["signature_prefix"])) \
+            if v["sig"] == f.get("signature") or (f.get("signature_prefix") and v["sig"].startswith(f["signature_prefix"])) \
                     or (f.get("signature_regex") and re.search(f["signature_regex"], v["sig"])):
                 hit = f
                 break
         if hit:
-            known.setdefault(hit["signature"], (hit, []))[1].append(v)
+            known.setdefault(hit.get("signature") or hit.get("signature_prefix") or hit.get("signature_regex"), (hit, []))[1].append(v)
         else:
             unlisted.append(v)
     for sig, (f, vs) in known.items():
